@@ -1,6 +1,7 @@
 import SqlgrepModel.Lemmas.PrintLines
 import SqlgrepModel.Lemmas.PrintString
 import SqlgrepModel.Lemmas.PrintChars
+import SqlgrepModel.Lemmas.PrintText
 /-
 C17 — printed records faithfully carry the result rows in every output format.
 
@@ -178,12 +179,24 @@ theorem text_lone_input (o : RealOracle) (v : Value) :
     renderRecord o .text [sInput] [v] = displayValue o v := by
   simp [renderRecord, loneInput]
 
-/- Full statement (not proved): under the property's guard alone (TEXT payloads free of `,`, quotes and
-line breaks) a reader that is aware of `'…'` and `{…}` splits every text record into its `name: value`
-pairs. Proved part: when no *rendered cell* and no column name contains `,` (this additionally excludes
-arrays with two or more elements, whose rendering `{a, b}` contains `, ` itself), splitting at `,`
-yields the pairs in column order. -/
-theorem text_pairs_in_order_partial (o : RealOracle) (cols : List Bytes) (row : List Value)
+/-- Text format under the property's guard. `splitTop 0 false` (Lemmas/PrintText.lean) reads a record
+by splitting it at the commas outside `'…'` and `{…}`. If no TEXT payload of the row (cells and array
+elements at any depth) contains the quote `'` — the property's guard also excludes `,`, `"` and line
+breaks, which is not even needed —, and the column names and the `{:.2}` oracle are free of `' , { }`
+(every name the engine generates is an identifier or `pN`), then the record read back is the list of
+`name: value` pairs in column order (each pair after the first preceded by the space of `, `).
+Arrays of any length and nesting are covered. -/
+theorem text_pairs_in_order (o : RealOracle) (cols : List Bytes) (row : List Value)
+    (hlone : loneInput .text cols row = false) (hne : cols ≠ []) (hl : cols.length = row.length)
+    (hnames : ∀ n ∈ cols, ∀ c ∈ n, Inert c) (hreal : ∀ b, ∀ c ∈ o.fixed2 b, Inert c)
+    (htexts : ∀ v ∈ row, ∀ s ∈ allTexts v, 39 ∉ s) :
+    splitTop 0 false (renderRecord o .text cols row)
+      = spaced ((cols.zip row).map fun nv => nv.1 ++ ([58, 32] ++ displayValue o nv.2)) :=
+  splitTop_text_record o cols row hlone hne (Nat.le_of_eq hl) hnames hreal htexts
+
+/-- the same with a plain split at every `,`, for rows whose rendered cells contain no `,` at all
+(no arrays of two or more elements) -/
+theorem text_pairs_comma_split (o : RealOracle) (cols : List Bytes) (row : List Value)
     (hlone : loneInput .text cols row = false) (hne : cols ≠ []) (hl : cols.length = row.length)
     (hnames : ∀ n ∈ cols, 44 ∉ n) (hfree : ∀ v ∈ row, 44 ∉ displayValue o v) :
     splitOn 44 (renderRecord o .text cols row)
@@ -233,7 +246,19 @@ example : splitOn 59 (renderRecord o0 (.csv [59]) [[97], [98], [99]]
 example : ∀ v ∈ [Value.text [39, 44, 10], .array .text [.text [120], .null], .real 0],
     ∀ s ∈ allTexts v, 59 ∉ s := by decide
 
--- `text_pairs_in_order_partial` on a two-column row
+-- `text_pairs_in_order` on a row with a nested array and TEXT containing `,` `{` `"` and a line break
+example : splitTop 0 false (renderRecord o0 .text [[97], [98]]
+      [.array (.array .text) [.array .text [.text [44, 123, 34, 10], .null], .array .text []], .text [120]])
+    = [[97, 58, 32, 123, 123, 39, 44, 123, 34, 10, 39, 44, 32, 78, 85, 76, 76, 125, 44, 32, 123, 125, 125],
+       [32, 98, 58, 32, 39, 120, 39]] := by decide
+
+example : (∀ n ∈ [[97], [98]], ∀ c ∈ n, Inert c) ∧ (∀ b, ∀ c ∈ o0.fixed2 b, Inert c)
+    ∧ (∀ v ∈ [Value.array (.array .text) [.array .text [.text [44, 123, 34, 10], .null], .array .text []], .text [120]],
+        ∀ s ∈ allTexts v, 39 ∉ s) := by
+  refine ⟨by decide, ?_, by decide⟩
+  intro b; show ∀ c ∈ [49, 46, 53, 48], Inert c; decide
+
+-- `text_pairs_comma_split` on a two-column row
 example : splitOn 44 (renderRecord o0 .text [[97], [98]] [.bool true, .text [120]])
     = [[97, 58, 32, 116, 114, 117, 101], [32, 98, 58, 32, 39, 120, 39]] := by decide
 
